@@ -25,4 +25,11 @@ def register(t):
 
 
 def class_model(I, cls, args, kwargs):
+    try:
+        import zfec
+        if cls in (zfec.Encoder, zfec.Decoder):
+            # zfec is external C code: assumed MDS codec (DESIGN 2.6); the object is an opaque handle
+            return SObj(cls, {"k": args[0] if args else None, "m": args[1] if len(args) > 1 else None})
+    except ImportError:
+        pass
     return NotImplemented
